@@ -97,7 +97,7 @@ def zipAxis [Inhabited α] [Inhabited β] {γ : Type} (g : α → β → γ) (a 
 
 /-- elementwise binary op with NumPy broadcasting where `b` may have extent-1 axes (same rank) -/
 def zipBroadcast [Inhabited α] [Inhabited β] {γ : Type} (g : α → β → γ) (a : Arr α) (b : Arr β) : Arr γ :=
-  let s := List.zipWith Nat.max a.shape b.shape
+  let s := List.zipWith (fun na nb => if na = 1 then nb else na) a.shape b.shape
   ofFn s (fun idx =>
     g (a.get (List.zipWith (fun i n => if n = 1 then 0 else i) idx a.shape))
       (b.get (List.zipWith (fun i n => if n = 1 then 0 else i) idx b.shape)))
